@@ -301,7 +301,7 @@ def fam_nested(E, kinds=(MOMENT, AFTER, DELAY), real=False, shared=False):
         E.prove(EQ(af[2], oe[2] + w), 'later-wait-unaffected-by-notification')
 
 
-def fam_reuse(E, kinds=(MOMENT, AFTER), real=False):
+def fam_reuse(E, kinds=(MOMENT, AFTER, DELAY), real=False):
     """one stored date notification object is used twice by the same activity, in two separate
     phases: as the notification of an until-block around a sleep, or awaited directly inside an
     until(time + x) block that may abandon the wait.  Every use is judged on its own by the
@@ -317,7 +317,8 @@ def fam_reuse(E, kinds=(MOMENT, AFTER), real=False):
 
     async def owner():
         await at_cp(e, 0)
-        n = (time == u) if kind == MOMENT else (time >= u)
+        # (a stored delay object `time + u` waits u from the moment of each use)
+        n = (time + u) if kind == DELAY else ((time == u) if kind == MOMENT else (time >= u))
         for i in range(2):
             log('own', 'enter', i)
             try:
@@ -364,7 +365,7 @@ def fam_reuse(E, kinds=(MOMENT, AFTER), real=False):
                 E.reach('first-wait-abandoned' if i == 0 else 'second-wait-abandoned')
         if i == 1:
             E.reach_if(True if t is NEVER else False, 'second-use-never')
-            if t is not NEVER:
+            if t is not NEVER and kind != DELAY:
                 E.reach_if(EQ(t, entry), 'second-use-already-true')
         entry = want + gap
 
@@ -443,7 +444,7 @@ FAMILIES = [
            bounds='two nested until-blocks on one and the same notification object'),
     Family('reuse', fam_reuse, quick=dict(), thorough=dict(real=True),
            reach=['first-wait-abandoned', 'second-use-already-true', 'second-use-never'],
-           bounds='a stored time == u / time >= u object used in two successive phases (until(n) '
+           bounds='a stored time == u / time >= u / time + u object used in two successive phases (until(n) '
                   'around a sleep, or awaited inside until(time + b)), u in [0,40]'),
     Family('till', fam_till,
            quick=dict(ticker=False),
